@@ -236,7 +236,7 @@ def run_family(ctx, focus, pfile):
     ctx.theorems(pfile)
     quick = ctx.quick
     cases, descr = [], []
-    nprob = {'c01': 400, 'c02': 300, 'c09': 300, 'c10': 300, 'c16': 400}[focus] * (1 if quick else 12)
+    nprob = {'c01': 400, 'c02': 300, 'c09': 300, 'c10': 300, 'c16': 400}[focus] * (1 if quick else 40)
     for it in range(nprob):
         kind = rng.random()
         nbest = 1
@@ -249,7 +249,7 @@ def run_family(ctx, focus, pfile):
             if focus in ('c02', 'c09', 'c10', 'c16') and rng.random() < 0.35:
                 kw['head_left'] = 'mixed'       # these properties quantify over every grammar, head-uniform or not
                 ctx.count('grammar:mixed_heads')
-            p = A.rand_problem(rng, nmax=5 if not quick else 4, kmax=5, nbest=nbest,
+            p = A.rand_problem(rng, nmax=(rng.choice([4, 5, 6]) if not quick else 4), kmax=5, nbest=nbest,
                                max_step=rng.choice([2000, 2000, 2000, 2000, rng.randint(1, 40)]), **kw)
             real = None
         else:
